@@ -112,6 +112,7 @@ type Oblig struct {
 	Confirmed string
 	GoalFree string // the clause over unconstrained result constants $free_res_i (see finish)
 	ScriptPos int   // length of the function's script when the obligation was generated
+	ModelMode bool  // refuted through the model-search prelude
 }
 
 type loopInfo struct {
